@@ -361,6 +361,8 @@ class Minor(object):
         zeta = z + zs
         ra = Angle(atan2(eta, xi), radians=True)
         dec = Angle(atan2(zeta, sqrt(xi * xi + eta * eta)), radians=True)
+        # The elongation needs the distance of the position just computed
+        delta = sqrt(xi * xi + eta * eta + zeta * zeta)
         r_sun = sqrt(xs * xs + ys * ys + zs * zs)
         psi = acos((xi * xs + eta * ys + zeta * zs) / (r_sun * delta))
         psi = Angle(psi, radians=True)
